@@ -501,8 +501,9 @@ def fix_counts(res):
 # ----------------------------------------------------------------------------------------
 # trace validation in parallel groups (one TLC per (settings, chunk of runs))
 
-def validate_groups(tag, groups, kf1, kf2, rep, chunk=40, timeout=1500):
-    """groups: list of (settings, [run records]) -> {run id: (verdict, detail)}"""
+def validate_groups(tag, groups, kf1, kf2, rep, chunk=40, timeout=1500, fast=False):
+    """groups: list of (settings, [run records]) -> {run id: (verdict, detail)}.  fast: TSpecFast, i.e. runs
+    that are not accepted get no verdict (to be re-validated under TSpec for the "fail" verdict and its place)"""
     tasks = []
     for s, runs in groups:
         for k in range(0, len(runs), chunk):
@@ -512,7 +513,8 @@ def validate_groups(tag, groups, kf1, kf2, rep, chunk=40, timeout=1500):
     def one(i):
         s, runs = tasks[i]
         return validate_trace("%s-%d" % (tag, i), "Trace_NewtonRaphson", trace_cfg(s, kf1, kf2), runs,
-                              nproc=1, timeout=timeout)
+                              nproc=1, timeout=timeout, spec_name="TSpecFast" if fast else "TSpec",
+                              judged=(lambda e: False) if fast else None)
 
     with cf.ThreadPoolExecutor(max_workers=16) as ex:
         for v, results, problems in ex.map(one, range(len(tasks))):
@@ -528,31 +530,42 @@ def judge(tag, groups, rep, describe):
     """DESIGN 4.5: validate with all deviations off; re-validate what fails with the listed deviations on.
     groups: [(settings, runs)]; describe(run id) -> (witness string, replay dict)"""
     by_id = {r["id"]: (s, r) for s, runs in groups for r in runs}
-    verdicts = validate_groups(tag, groups, False, False, rep)
+    verdicts = validate_groups(tag, groups, False, False, rep, fast=True)
     pending = [i for i in by_id if verdicts.get(i, ("missing", ""))[0] != "ok"]
-    first_fail = {i: verdicts.get(i) for i in pending}
+    first_fail = {i: verdicts.get(i, "not accepted with all deviations off") for i in pending}
     counts = collections.Counter(ok=len(by_id) - len(pending))
+    def above(i):
+        s = by_id[i][0]
+        return Fraction(*s["init"]) > 1
+    # a deviation is only tried where its signature can apply (KF2 needs initialInc > 1)
     for kf1, kf2 in ((True, False), (False, True), (True, True)):
-        if not pending:
-            break
+        todo = [i for i in pending if (not kf2) or above(i)]
+        if not todo:
+            continue
         sub = collections.defaultdict(list)
-        for i in pending:
+        for i in todo:
             s, r = by_id[i]
             sub[skey(s)].append(r)
         v2 = validate_groups("%s-kf%d%d" % (tag, kf1, kf2), [(json.loads(k), rs) for k, rs in sub.items()],
-                             kf1, kf2, rep)
-        still = []
-        for i in pending:
+                             kf1, kf2, rep, fast=True)
+        for i in todo:
             v = v2.get(i)
             if v and v[0].startswith("kf:"):
                 for name in v[0][3:].split("+"):
                     rep.known(name, describe(i)[0])
                     counts[name] += 1
-            else:
-                still.append(i)
-                if v:
-                    first_fail[i] = (first_fail[i], v)
-        pending = still
+                pending.remove(i)
+            elif v:
+                first_fail[i] = (first_fail[i], v)
+    if pending:     # total verdicts: TLC's "fail" with the place, under the literal specification
+        sub = collections.defaultdict(list)
+        for i in pending:
+            s, r = by_id[i]
+            sub[skey(s)].append(r)
+        v3 = validate_groups("%s-diag" % tag, [(json.loads(k), rs) for k, rs in sub.items()], False, False, rep)
+        for i in pending:
+            first_fail[i] = v3.get(i, first_fail[i])
+            verdicts[i] = v3.get(i, ("missing", ""))
     for i in pending:
         w, replay = describe(i)
         counts["violations"] += 1
@@ -615,7 +628,7 @@ def mc_lattice(tier):
         L.append(("base", S(), "scripted", 0, (1, 2, 4, 8), (), True, 120))      # 2: Rmax = absTOL exactly (boundary of <)
         L.append(("fullNR", S(mod=False, kt0=False, every=1, maxNumIter=4, minInc=(1, 8)), "scripted", 0, R4, (), True, 80))
         L.append(("ls", S(ls=True, maxIterLS=2), "scripted", 0, (0, 1, 4), ("one", "two", "small"), True, 120))
-        L.append(("ls3", S(ls=True, maxIterLS=3, mod=False, init=(1, 2), minInc=(1, 8)), "scripted", 0, (0, 4, 8),
+        L.append(("ls3", S(ls=True, maxIterLS=3, mod=False, init=(1, 2), minInc=(1, 4)), "scripted", 0, (0, 4, 8),
                   ("one", "flat", "third"), True, 80))
         L.append(("full1", S(init=(1, 1), minInc=(1, 8), every=1), "scripted", 0, R4, (), True, 80))
         L.append(("above", S(init=(2, 1), minInc=(1, 8)), "scripted", 0, (1, 4, 8), (), True, 60))
@@ -649,13 +662,18 @@ def mc_lattice(tier):
         L.append(("t-dim2ls", S(minInc=(1, 4), ls=True, init=(1, 2)), "scripted", 2, (0, 4), ("one", "two", "third"), False, 0))
         L.append(("t-deep", S(minInc=(1, 50)), "scripted", 0, R5, (), True, 250))
         L.append(("t-deep1", S(init=(1, 1), minInc=(1, 30)), "scripted", 0, R5, (), True, 250))
-    # linear problems (deterministic): every combination of the method switches
-    for init in ((3, 10), (1, 1), (2, 1), (119, 250)) if tier == "quick" else ((3, 10), (1, 1), (2, 1), (119, 250), (1, 8), (7, 10)):
-        for ls in (False, True):
-            for mod, every, kt0 in ((True, 2, True), (False, 1, False)) if tier == "quick" else ((True, 2, True), (True, 6, False), (False, 1, False), (False, 2, True)):
-                L.append(("lin-%s-%s-%s%d" % (init, ls, mod, every),
-                          S(init=init, ls=ls, maxIterLS=3, mod=mod, every=every, kt0=kt0, maxNumIter=5),
-                          "linear", 2, (), (), True, 1))
+    # linear problems (deterministic, one behaviour each): the method switches
+    if tier == "quick":
+        lin = [((3, 10), False, True, 2, True), ((3, 10), True, False, 1, False), ((1, 1), True, True, 2, True),
+               ((1, 1), False, False, 1, False), ((2, 1), False, True, 2, True), ((2, 1), True, False, 1, False),
+               ((119, 250), False, False, 2, True), ((119, 250), True, True, 6, False)]
+    else:
+        lin = [(init, ls, mod, every, kt0)
+               for init in ((3, 10), (1, 1), (2, 1), (119, 250), (1, 8), (7, 10)) for ls in (False, True)
+               for mod, every, kt0 in ((True, 2, True), (True, 6, False), (False, 1, False), (False, 2, True))]
+    for init, ls, mod, every, kt0 in lin:
+        L.append(("lin-%s-%s-%s%d" % (init, ls, mod, every),
+                  S(init=init, ls=ls, maxIterLS=3, mod=mod, every=every, kt0=kt0, maxNumIter=5), "linear", 2, (), (), True, 1))
     return L
 
 
@@ -844,29 +862,7 @@ def run(tier, seed, build):
         w = "%s [%s] %s -> increments %s" % (d["kind"], d.get("model", ""), settings_str(d["settings"]), d["increments"])
         return w, d
 
-    t0 = time.time()
-    vA, cA = judge("c09-A", groups, rep, describe)
     nA = rid
-    rep.cov["traces_validated_against_impl"] += nA
-
-    # the trace specification binds: minimal corruptions of an accepted run must all be rejected
-    cand = [(sg, r) for sg, runs in groups for r in runs
-            if vA.get(r["id"], ("",))[0] == "ok" and len(r["ret"]["increments"]) >= 2 and sg["tol"] == (1, 1024)
-            and any(e["fn"] == "kT" for e in r["calls"][3:])]
-    if not cand:
-        if not rep.violations:
-            rep.machinery("no accepted run available for the binding self-test")
-    else:
-        sg, r0 = cand[len(cand) // 2]
-        cor = corruptions(r0, 10 ** 6)
-        for kf in ((False, False), (True, True)):
-            vc = validate_groups("c09-bind%d" % kf[0], [(sg, [r for _, r in cor])], kf[0], kf[1], rep)
-            for what, r in cor:
-                if vc.get(r["id"], ("missing",))[0] != "fail":
-                    rep.machinery("trace specification does not bind: corrupted run (%s) got verdict %s"
-                                  % (what, vc.get(r["id"])))
-        rep.cov["binding_selftest_corruptions_rejected"] = len(cor)
-
     # 2. direction B: free runs
     groupsB = collections.defaultdict(list)
     for s, (K, a2, a3, F) in spring_lattice(tier, rng):
@@ -886,12 +882,30 @@ def run(tier, seed, build):
         rep.nontrivial(("panel", json.dumps(case, sort_keys=True)))
         groupsB[skey(s)].append(rec)
         rid += 1
-    vB, cB = judge("c09-B", [(json.loads(k), rs) for k, rs in groupsB.items()], rep, describe)
-    rep.cov["traces_validated_against_impl"] += rid - nA
-    t_tr = time.time() - t0
+    t0 = time.time()
+    idsA = set(range(nA))
+    allv, call = judge("c09-tr", groups + [(json.loads(k), rs) for k, rs in groupsB.items()], rep, describe)
+    rep.cov["traces_validated_against_impl"] += rid
+    vA = allv
+    # the trace specification binds: minimal corruptions of an accepted run must all be rejected
+    cand = [(sg, r) for sg, runs in groups for r in runs
+            if vA.get(r["id"], ("",))[0] == "ok" and len(r["ret"]["increments"]) >= 2 and sg["tol"] == (1, 1024)
+            and any(e["fn"] == "kT" for e in r["calls"][3:])]
+    if not cand:
+        if not rep.violations:
+            rep.machinery("no accepted run available for the binding self-test")
+    else:
+        sg, r0 = cand[len(cand) // 2]
+        cor = corruptions(r0, 10 ** 6)
+        for kf in ((False, False), (True, True)):
+            vc = validate_groups("c09-bind%d" % kf[0], [(sg, [r for _, r in cor])], kf[0], kf[1], rep)
+            for what, r in cor:
+                if vc.get(r["id"], ("missing",))[0] != "fail":
+                    rep.machinery("trace specification does not bind: corrupted run (%s) got verdict %s"
+                                  % (what, vc.get(r["id"])))
+        rep.cov["binding_selftest_corruptions_rejected"] = len(cor)
 
-    allv = dict(vA)
-    allv.update(vB)
+    t_tr = time.time() - t0
     acts_real = collections.Counter()
     for s, runs in groups:
         for r in runs:
@@ -904,7 +918,7 @@ def run(tier, seed, build):
     rep.cov["graph_edges_on_replayed_paths"] = edges_covered
     rep.cov["actions_in_models"] = dict(seen_actions)
     rep.cov["actions_replayed_into_code"] = dict(acts_real)
-    rep.cov["verdict_counts"] = dict(A=dict(cA), B=dict(cB))
+    rep.cov["verdict_counts"] = dict(call)
     rep.cov["wall_split_s"] = dict(model_checking=round(t_mc, 1), trace_validation=round(t_tr, 1))
     rep.cov["exhaustive"] = False
     rep.cov["rule"] = ("distinct = distinct (bounded model, set of driver actions on the path, number of reported "
